@@ -20,13 +20,17 @@ func ConvertValueList(values []interface{}) ([]interface{}, error) {
 	return jsonValues, nil
 }
 
-// IsNil returns true if the value is nil or a nil pointer, i.e., it has no JSON value other than null.
+// IsNil returns true if the value is nil, or a nil pointer, slice or map, i.e., it has no JSON value other than null.
 func IsNil(value interface{}) bool {
 	if value == nil {
 		return true
 	}
 	rv := reflect.ValueOf(value)
-	return rv.Kind() == reflect.Ptr && rv.IsNil()
+	switch rv.Kind() {
+	case reflect.Ptr, reflect.Slice, reflect.Map:
+		return rv.IsNil()
+	}
+	return false
 }
 
 // ToInterfaceArray transforms an array of JSNValues to the array of interfaces
